@@ -4,14 +4,14 @@ SPEC = {
     "gen": [],
     "streams": [
         {"name": "nodedb", "cmd": "nodedb",
-         "args": {"quick": ["-cases", "40", "-pipeline-any"], "thorough": ["-cases", "1500", "-pipeline-any"]},
+         "args": {"quick": ["-cases", "30", "-pipeline-any"], "thorough": ["-cases", "1500", "-pipeline-any"]},
          "search_args": ["-cases", "400", "-pipeline-any"]},
     ],
     "trusted_base": [
         "Coq 8.16.1 kernel (coqc; coqchk in the thorough tier); no native_compute",
         "harness/cmd/nodedb (drives the real badger and pathbadger NodeDB on disk through mkvs trees; a recording wrapper around api.NodeDB/api.Batch observes PutNode/RemoveNodes; reads back every known root after every operation)",
         "vm_compute evaluation of Verif.NodeDB.Badger (badger) and Verif.NodeDB.PathBadger (pathbadger; node positions read from the real pointers by reflection) on the recorded histories",
-        "modelled, not verified: Badger's LSM/MVCC (a write log with 'largest timestamp <= read timestamp, newest write wins'), the mkvs tree layer (supplies node sets; consistency of the supplied sets is a checked side condition wf_step), physical GC/compaction, true concurrency (not exercised)",
+        "Badger's physical GC is modelled as dropping versions dominated at or below the discard timestamp (Gc.v; theorem: no read at or above it changes) and exercised by reopen + NodeDB.Compact in the stream; modelled, not verified: Badger's LSM/MVCC (a write log with 'largest timestamp <= read timestamp, newest write wins'), the mkvs tree layer (supplies node sets; consistency of the supplied sets is a checked side condition wf_step), physical GC/compaction, true concurrency (not exercised)",
         "pathbadger: concrete executable model Verif.NodeDB.PathBadger (positions, finalized/pending key spaces, sequence numbers) compared with the real backend on every history (error class of finalize/prune, accepted/rejected commits, earliest/latest, HasRoot, readable or not for every known root after every operation); its refinement of Spec.v is NOT proved (only witnesses and rule lemmas)",
     ],
     "assumptions": [
